@@ -1,5 +1,5 @@
-import Aiortc.Lemmas.SctpFinal
-import Aiortc.Lemmas.SctpRefine
+import Aiortc.Lemmas.C01.SctpFinal
+import Aiortc.Lemmas.C01.SctpRefine
 /-!
 # C01 — reliable data channels deliver every message exactly once, intact, in order
 
